@@ -7,6 +7,7 @@ import (
 	"fmt"
 	"go/token"
 	"go/types"
+	"sort"
 	"strconv"
 	"strings"
 
@@ -392,7 +393,50 @@ func (e *Engine) formatValue(verb byte, fl fmtFlags, t types.Type, v Value, dept
 		if x == nil || x.live == 0 {
 			return mkStr("map[]")
 		}
-		e.unsupported("formatting a non-empty map")
+		// fmt prints maps sorted by key; keys must be concrete strings or integers here
+		type kv struct {
+			ks  string
+			ki  int64
+			ent *mapEntry
+		}
+		var kvs []kv
+		isStr := false
+		for _, en := range x.entries {
+			if en.deleted {
+				continue
+			}
+			switch k := en.key.(type) {
+			case Str:
+				if k.t != nil {
+					e.unsupported("formatting a map with a symbolic key")
+				}
+				isStr = true
+				kvs = append(kvs, kv{ks: k.s, ent: en})
+			case *Term:
+				if !k.IsConst() {
+					e.unsupported("formatting a map with a symbolic key")
+				}
+				kvs = append(kvs, kv{ki: sext(k.c, k.w), ent: en})
+			default:
+				e.unsupported("formatting a map keyed by %T", en.key)
+			}
+		}
+		sort.Slice(kvs, func(i, j int) bool {
+			if isStr {
+				return kvs[i].ks < kvs[j].ks
+			}
+			return kvs[i].ki < kvs[j].ki
+		})
+		out := mkStr("map[")
+		for i, p := range kvs {
+			if i > 0 {
+				out = e.strConcat(out, mkStr(" "))
+			}
+			out = e.strConcat(out, e.formatElem(verb, fl, x.t.Key(), p.ent.key, depth+1))
+			out = e.strConcat(out, mkStr(":"))
+			out = e.strConcat(out, e.formatElem(verb, fl, x.t.Elem(), p.ent.val, depth+1))
+		}
+		return e.strConcat(out, mkStr("]"))
 	case *ssa.Function, *Closure:
 		return mkStr("0xfunc")
 	case *Chan:
